@@ -75,7 +75,7 @@ def run(ck):
                       "compared per call: return value, bytes delivered, both heads, the open transaction; non-trivial = distinct history")
     ck.assumptions += ["memcpy copies bytes", "ring sizes 1..2^31 (0 and >2^31 make next_power_of_two return 0 and are outside the property)"]
     if not ck.build_driver(): return
-    if not ck.prove():
+    if not ck.prove(["ZixModel.Properties.C05", "ZixModel.Properties.C05History"]):
         ck.report_proof_failure("theorems about the ring model no longer build")
     exe = ck.cc("h_c05", ["h_c05.c", os.path.join(REPO, "src/allocator.c"), os.path.join(REPO, "src/errno_status.c")])
     if not exe: return
